@@ -337,6 +337,18 @@ def prog_is_criterion(e):
     return e[0] in ("eq", "ne", "gt", "ge", "lt", "le", "in", "notin", "between", "like", "not", "isnull", "and", "or")
 
 
+def positional_programs(cls):
+    """ORDER BY / GROUP BY by column position: the integer names a column, it is not a value (name -> program)"""
+    src = {"T": ["tbl", "t1", None, None], "U": ["tbl", "t2", None, None]}
+    sel = [["from_", [["src", "T"]]], ["select", [A_, B_]], ["where", [["gt", A_, ["raw", 6001]]]]]
+    other = {"cls": "inherit", "sources": {}, "steps": [["from_", [["src", "U"]]], ["select", [["col", "U", "a"], ["col", "U", "b"]]]]}
+    return {
+        "orderby_position": {"cls": cls, "sources": src, "kind": "positional", "steps": sel + [["orderby", [["py", 2]], {"order": ["enum", "Order", "desc"]}], ["limit", [["raw", 6003]]]]},
+        "groupby_position": {"cls": cls, "sources": src, "kind": "positional", "steps": [["from_", [["src", "T"]]], ["select", [B_, ["fn", "Sum", [A_]]]], ["where", [["gt", A_, ["raw", 6001]]]], ["groupby", [["py", 1]]]]},
+        "setop_orderby_position": {"cls": cls, "sources": src, "kind": "positional", "steps": sel + [["union_all", [["q", other]]], ["orderby", [["py", 2]]]]},
+    }
+
+
 def slot_cases():
     for name in sorted(slot_templates()):
         for clause in SLOT_CLAUSES:
@@ -355,6 +367,9 @@ def clause_of(p, s_par):
 
 
 def check_case(case):
+    if case.get("family") == "positional":
+        res = check_program(positional_programs(case["cls"])[case["name"]])
+        return [(mksig("any", "positional", case["name"], k), d) for k, d in res if k != "__build__"]
     if case.get("family") == "slots":
         p = slot_program(case["cls"], case["name"], case["clause"])
         res = check_program(p)
@@ -365,6 +380,8 @@ def check_case(case):
 
 def valid_case(case):
     try:
+        if case.get("family") == "positional":
+            return case["cls"] in CTXS and case["name"] in positional_programs(case["cls"])
         if case.get("family") == "slots":
             return case["name"] in slot_templates() and case["clause"] in SLOT_CLAUSES and case["cls"] in CTXS
         prog.build_program(case)
@@ -398,6 +415,14 @@ def run_shard(shard):
             col.case(case, True, classes=("slots", "clause:" + case["clause"]))
             for k, d in res:
                 col.violation(mksig(case["cls"] if k in ("style", "numbering") or k.startswith("raises") else "any", "slots", case["name"].split("_")[0], k), case, d)
+        for cls in CTXS:
+            for name, p in positional_programs(cls).items():
+                case = {"family": "positional", "cls": cls, "name": name}
+                res = check_program(p)
+                col.case(case, True, classes=("positional",))
+                for k, d in res:
+                    if k != "__build__":
+                        col.violation(mksig("any", "positional", name, k), case, d)
         col.notes["slot_templates"] = len(slot_templates())
         return col
     nex = 400 if tier == "quick" else 6000
